@@ -732,6 +732,23 @@ class NN:
         """Classify a (folded) distance-valued term.
         Returns {'kind': LEV|HAM|HAMREP|CUST|BFS-LEV|BFS-HAM|EXT-LEV|EXT-HAM, 'ops': (x, y), 'implied': [(kind, T)], ...} or None."""
         d = strip(d)
+        if head(d) == "ite":
+            # a distance chosen between two computations: the same kind on the same operands either way, or a mixture.  A mixture is a
+            # decided answer (the reported value is not the mode's distance on one branch) unless the condition pins the alternative
+            # scorer to 0 / 1, where Hamming and Levenshtein of equal-length strings agree.
+            a, b = self.dist_of(q, d[2], mapping), self.dist_of(q, d[3], mapping)
+            if a is None or b is None:
+                return None
+            same_ops = strip_all(a["ops"]) == strip_all(b["ops"])
+            if a["kind"] == b["kind"] and same_ops and not a["implied"] and not b["implied"]:
+                return a
+            if not same_ops or a["implied"] or b["implied"]:
+                return None
+            pinned = any(head(x) == "cmp" and any(is_const(y) and isinstance(y[2], (int, float)) and not isinstance(y[2], bool) and y[2] <= 1 for y in (strip(x[2]), strip(x[3])))
+                         for x in walk(("t", d[1])))
+            if pinned:
+                return None
+            return {"kind": "OTHER:mixture of " + a["kind"] + " and " + b["kind"], "ops": a["ops"], "implied": []}
         if head(d) == "call":
             f = strip(d[1])
             if head(f) == "lam":
